@@ -423,6 +423,41 @@ fn run_ops<'g>(game: &'g Game<u64, u64>, other_game: Option<&'g Game<u64, u64>>,
                     }
                 }
             }
+            "solve_pair" => {
+                // the same unsampled solve issued from two user threads at the same time on one Game (no hook state
+                // involved): results must not depend on what else the process is doing
+                let iters = op["iters"].as_u64().unwrap();
+                let max_reg = f(&op["max_reg"]);
+                let threads = op["threads"].as_u64().unwrap() as usize;
+                match parse_params(&op["params"]) {
+                    Err(msg) => json!({"params_panic": msg}),
+                    Ok(_) => {
+                        verif::set_sampler(None);
+                        verif::set_yield_seed(0);
+                        let run_one = || -> Value {
+                            let params = parse_params(&op["params"]).ok().flatten();
+                            let res = catch_unwind(AssertUnwindSafe(|| game.solve(SolveMethod::Full, iters, max_reg, threads, params)));
+                            match res {
+                                Err(e) => json!({"panic": panic_msg(e)}),
+                                Ok(Err(SolveError::ThreadOverflow)) => json!({"err": "ThreadOverflow"}),
+                                Ok(Err(_)) => json!({"err": "ThreadSpawnError"}),
+                                Ok(Ok((strat, bound))) => json!({"ok": {
+                                    "bounds": [b(bound.player_regret_bound(PlayerNum::One)),
+                                               b(bound.player_regret_bound(PlayerNum::Two)),
+                                               b(bound.regret_bound())],
+                                    "named": named_out(&strat)}}),
+                            }
+                        };
+                        let (r1, r2) = std::thread::scope(|sc| {
+                            let h1 = sc.spawn(run_one);
+                            let h2 = sc.spawn(run_one);
+                            (h1.join(), h2.join())
+                        });
+                        let unwrap = |r: std::thread::Result<Value>| r.unwrap_or_else(|e| json!({"panic": panic_msg(e)}));
+                        json!({"ok": [unwrap(r1), unwrap(r2)]})
+                    }
+                }
+            }
             "import" | "import_other" => {
                 let named = parse_named(&op["strat"]);
                 let fast = op["fast"].as_bool().unwrap();
